@@ -8,8 +8,9 @@
 
    State hypothesis [Good hr c s]:
      - [Inv hr c s], the C01 invariant (Proofs/C01Ops.v);
-     - [sizes_ok]: every row stores the size a replay of its record would store (a metadata update re-derives
-       the size from the PAX size record);
+     - [sizes_ok]: every row stores the size a replay of its record would store: its PAX size record decodes to the
+       stored size, or it has none and the size is below 10^40 (a metadata update or move re-derives the size from
+       the PAX size record, which [keep_size] adds from the known size when missing: rows of a foreign archive);
      - [closed (abs s)]: the live entries form a tree.  Needed where the implementation looks at direct children
        (Remove's emptiness test, MkdirAll's early failure) or at a name prefix (RemoveAll, Rename) and the
        reference at the subtree.
